@@ -5,6 +5,7 @@ import (
 	"crypto/sha256"
 	"encoding/hex"
 	"fmt"
+	"github.com/parquet-go/parquet-go/variant"
 	"io"
 	"math"
 	"os"
@@ -43,7 +44,7 @@ type Case struct {
 	Rounds     int            `json:"rounds"` // every goroutine repeats its job this many times
 }
 
-var jobKinds = []string{"write-reuse", "read-any", "reconstruct", "write", "read-rows", "read-rows", "read-pages", "read-index", "read-bloom", "column-writers", "rowgroups", "buffer-sort", "async-seek", "schema-of"}
+var jobKinds = []string{"variant-convert", "write-reuse", "read-any", "reconstruct", "write", "read-rows", "read-rows", "read-pages", "read-index", "read-bloom", "column-writers", "rowgroups", "buffer-sort", "async-seek", "schema-of"}
 
 func genCase(t *rapid.T) Case {
 	var c Case
@@ -102,6 +103,55 @@ type world struct {
 	file   *parquet.File      // opened once, shared by all reader jobs
 	afile  *parquet.File      // same bytes opened in asynchronous read mode
 	pool   parquet.BufferPool // shared by the writers that defer their bloom filters
+	vrg    parquet.RowGroup   // a row group with a shredded variant column (fixed content)
+	vconv  parquet.Conversion // shredded -> unshredded, ONE value shared by every goroutine
+}
+
+// variantWorld builds the fixed shredded-variant row group and the shared conversion.
+func (w *world) variantWorld() error {
+	shredded, err := parquet.ShreddedVariant(parquet.Group{"a": parquet.Int(64), "b": parquet.String()})
+	if err != nil {
+		return err
+	}
+	src := parquet.NewSchema("t", parquet.Group{"id": parquet.Int(64), "var": shredded})
+	dst := parquet.NewSchema("t", parquet.Group{"id": parquet.Int(64), "var": parquet.Variant()})
+	type raw struct {
+		Metadata []byte `parquet:"metadata"`
+		Value    []byte `parquet:"value"`
+	}
+	type row struct {
+		ID  int64 `parquet:"id"`
+		Var any   `parquet:"var,variant"`
+	}
+	rows := make([]row, 300)
+	for i := range rows {
+		fields := []variant.Field{{Name: "a", Value: variant.Int64(int64(i))}, {Name: "b", Value: variant.String(fmt.Sprintf("s%d", i))}}
+		if i%3 == 0 {
+			fields = append(fields, variant.Field{Name: fmt.Sprintf("extra%d", i%7), Value: variant.Double(float64(i))})
+		}
+		if i%5 == 0 {
+			fields[0].Value = variant.String("not an int")
+		}
+		var mb variant.MetadataBuilder
+		data := variant.Encode(&mb, variant.MakeObject(fields))
+		_, meta := mb.Build()
+		rows[i] = row{ID: int64(i), Var: raw{Metadata: meta, Value: data}}
+	}
+	var buf bytes.Buffer
+	wr := parquet.NewGenericWriter[row](&buf, src, parquet.PageBufferSize(512))
+	if _, err := wr.Write(rows); err != nil {
+		return err
+	}
+	if err := wr.Close(); err != nil {
+		return err
+	}
+	f, err := pq.Open(buf.Bytes())
+	if err != nil {
+		return err
+	}
+	w.vrg = f.RowGroups()[0]
+	w.vconv, err = parquet.Convert(dst, src)
+	return err
 }
 
 func digest(parts ...[]byte) string {
@@ -203,6 +253,15 @@ func (w *world) run(j Job) (string, error) {
 			return "", err
 		}
 		return digest(buf.Bytes()), nil
+	case "variant-convert":
+		// one Conversion (shredded variant -> unshredded) used by every goroutine at once
+		r := parquet.ConvertRowGroup(w.vrg, w.vconv).Rows()
+		rows, err := pq.ReadAllRows(r, 1+j.N)
+		r.Close()
+		if err != nil {
+			return "", err
+		}
+		return rowsDigest(rows), nil
 	case "write-reuse":
 		// a writer that is closed, reset and used again; its bloom filters are deferred to the end
 		// of the file through a buffer pool that all such writers share
@@ -471,6 +530,13 @@ func runCase(c Case, o *kit.Obs) *kit.Failure {
 		return nil
 	}
 	w.data = data
+	for _, j := range c.Jobs {
+		if j.Kind == "variant-convert" && w.vrg == nil {
+			if err := w.variantWorld(); err != nil {
+				return kit.Failf("harness/variant-world", "%v", err)
+			}
+		}
+	}
 	// serial reference: fresh File handles so the lazily loaded state is populated serially
 	open := func() bool {
 		f, err1 := pq.Open(data)
